@@ -125,12 +125,13 @@ class Interp:
     MAX_PATHS = 256
     MAX_STEPS = 20000
 
-    def __init__(self, prog, mod, enter=(), call_hook=None, attr_hook=None, known_functions=None, symbolic_loops=False, index_hook=None):
+    def __init__(self, prog, mod, enter=(), call_hook=None, attr_hook=None, known_functions=None, symbolic_loops=False, index_hook=None, func_hook=None):
         self.prog, self.mod = prog, mod
         self.index_hook = index_hook      # index_hook(base, key) -> value or NotImplemented, consulted before a subscript is evaluated
         self.symbolic_loops = symbolic_loops      # a loop over an iterable of unknown length is executed once with symbolic targets
         self.enter = set(enter)
         self.call_hook, self.attr_hook = call_hook, attr_hook
+        self.func_hook = func_hook      # func_hook(name, args, kwargs): the value of a call of a program function that is not entered (the call event is recorded first)
         self.known_functions = known_functions
         self.path = None
         self.steps = 0
@@ -668,7 +669,20 @@ class Interp:
             return self.call(e, env)
         if isinstance(e, (ast.ListComp, ast.GeneratorExp, ast.SetComp)):
             out = []
-            self.comprehension(e.generators, 0, env, lambda env2: out.append(self.ev(e.elt, env2)))
+            try:
+                self.comprehension(e.generators, 0, env, lambda env2: out.append(self.ev(e.elt, env2)))
+            except Undecidable:
+                if not (self.symbolic_loops and len(e.generators) == 1 and not e.generators[0].ifs):
+                    raise
+                # an iterable of unknown length: the comprehension as a symbol that records its element for symbolic targets
+                g = e.generators[0]
+                itv = self.ev(g.iter, env)
+                env2 = Env({}, env)
+                for nm in ast.walk(g.target):
+                    if isinstance(nm, ast.Name):
+                        env2.set(nm.id, Sym(nm.id))
+                elt = self.ev(e.elt, env2)
+                return Sym('[%s for %s in %s]' % (show(elt), ast.unparse(g.target), show(itv)), struct=('comp', elt, itv, ast.unparse(g.target)))
             return out
         if isinstance(e, ast.DictComp):
             out = {}
@@ -678,7 +692,19 @@ class Interp:
                 if not is_concrete(k):
                     raise Undecidable('dictionary key %s' % ast.unparse(e.key)[:40])
                 out[k] = self.ev(e.value, env2)
-            self.comprehension(e.generators, 0, env, put)
+            try:
+                self.comprehension(e.generators, 0, env, put)
+            except Undecidable:
+                if not (self.symbolic_loops and len(e.generators) == 1 and not e.generators[0].ifs):
+                    raise
+                g = e.generators[0]
+                itv = self.ev(g.iter, env)
+                env2 = Env({}, env)
+                for nm in ast.walk(g.target):
+                    if isinstance(nm, ast.Name):
+                        env2.set(nm.id, Sym(nm.id))
+                k, v = self.ev(e.key, env2), self.ev(e.value, env2)
+                return Sym('{%s: %s for %s in %s}' % (show(k), show(v), ast.unparse(g.target), show(itv)), struct=('dictcomp', k, v, itv, ast.unparse(g.target)))
             return out
         if isinstance(e, ast.JoinedStr):
             return Sym('f-string', truth=True)
@@ -804,6 +830,10 @@ class Interp:
                 bound = self.bind(f.node, args, kwargs, skip_first=False)
                 return self.call_function(f.node, bound, f.cls, f.env)
             self.path.events.append(('call', f.name, tuple(args), dict(kwargs)))
+            if self.func_hook is not None:
+                r = self.func_hook(f.name, args, kwargs)
+                if r is not NotImplemented:
+                    return r
             return Sym('%s(%s)' % (f.name, ', '.join([show(a) for a in args] + ['%s=%s' % (k, show(v)) for k, v in kwargs.items()])), struct=('call', f.name, tuple(args), dict(kwargs)))
         if isinstance(f, Sym):
             nm = f.text
@@ -919,6 +949,11 @@ class _Method:
                     return args[1]
                 raise Raised('KeyError')
             if n == 'get':
+                if not is_concrete(args[0]):
+                    # a symbolic key: present or absent, both explored
+                    if it.decide('%s in the dictionary' % show(args[0])):
+                        return it.index(o, args[0], None)
+                    return args[1] if len(args) > 1 else None
                 return o.get(args[0], args[1] if len(args) > 1 else None)
             if n == 'items':
                 return [(k, v) for k, v in o.items()]
